@@ -6,7 +6,7 @@
 #include "igzip_lib.h"
 
 enum { API_DEFLATE, API_DEFLATE_STATELESS, API_INFLATE, API_INFLATE_STATELESS, API_DEFLATE_STATELESS_MULTI /* several one-shot calls on ONE context (FULL_FLUSH ... final) */ };
-enum { MEM_CONTIG, MEM_FRESH, MEM_RECYCLE };
+enum { MEM_CONTIG, MEM_FRESH, MEM_RECYCLE, MEM_FRESH_START };
 #define MAXCALLS 200000
 
 struct call { int ai, ao, flush, eos; };
@@ -89,11 +89,13 @@ feed_chunk(struct feeder *f, const unsigned char *src, size_t off, size_t n)
 {
         if (f->mem == MEM_CONTIG)
                 return f->all + off;
-        if (f->mem == MEM_FRESH) {
+        if (f->mem == MEM_FRESH || f->mem == MEM_FRESH_START) {
                 unsigned char *p;
                 f->cur_r = vh_region_new(n ? n : 1);
                 f->have_cur = 1;
-                p = vh_place(&f->cur_r, n, VH_END, 0); /* exact-size: last byte flush against an inaccessible page */
+                /* exact-size: last byte flush against an inaccessible page; or (MEM_FRESH_START) the FIRST byte directly behind one:
+                 * what lies in front of a chunk is not the previous chunk */
+                p = vh_place(&f->cur_r, n, f->mem == MEM_FRESH ? VH_END : VH_START, 0);
                 memcpy(p, src + off, n);
                 return p;
         }
@@ -108,7 +110,7 @@ feed_chunk(struct feeder *f, const unsigned char *src, size_t off, size_t n)
 static void
 release_chunk(struct feeder *f, unsigned char *p, size_t n)
 {
-        if (f->mem == MEM_FRESH && f->have_cur) {
+        if ((f->mem == MEM_FRESH || f->mem == MEM_FRESH_START) && f->have_cur) {
                 vh_region_free(&f->cur_r); /* consumed input is unmapped at once */
                 f->have_cur = 0;
         } else if (f->mem == MEM_RECYCLE) {
